@@ -15,6 +15,13 @@ AM = "armi.utils.asciimaps"
 BP = "armi.reactor.blueprints."
 
 
+def _r1_reader_part(idx, r, base):
+    rd = base.methods["readAscii"]
+    seq = [dotted(c.func) for c in iter_calls(rd.node) if (dotted(c.func) or "").startswith("self._")]
+    r.require(seq == ["self._updateDimensionsFromAsciiLines", "self._asciiLinesToIndices", "self._makeOffsets", "self._updateSlotSizeFromData"], "reader:sequence", rd, msg=f"dimensions are derived before indices: {seq}")
+
+
+
 def r1_lattice_maps(idx, r):
     base = idx.cls(AM + ".AsciiMap")
     classes = [c for c in idx.subclasses(base)]
@@ -67,8 +74,19 @@ def r1_lattice_maps(idx, r):
         r.require(st is not None and norm(st.node.slice) == "ij" and norm(st.value) == norm(inner.target.elts[1]), f"{c.name}:stores-label-at-ij", rd, msg="each label is stored at its own indices")
         wcalls = [x for x in iter_calls(wr.node) if dotted(x.func) == "self._getIJFromColRow"]
         r.require(len(wcalls) == 1 and [norm(a) for a in wcalls[0].args] == ["colNum", "lineNum"], f"{c.name}:writer-uses-index-map", wr, msg="the writer looks every (column, line) up through _getIJFromColRow")
-    # writer refuses incomplete drawings
+    # writer refuses incomplete drawings. When the drawing is verified against the data before it is handed out (R18.4), the
+    # individual refusal mechanisms below are sufficient but no longer necessary conditions: they are then not demanded.
     w = base.methods["gridContentsToAscii"]
+    try:
+        from ..report import Check as _Check
+        probe = _Check("C18", "quick").rule("probe", "")
+        r4_drawing_verified(idx, probe)
+        verified = not any(i.status == "violation" for i in probe.instances) and not probe.errors
+    except AnalysisError:
+        verified = False
+    if verified:
+        r.ok("writer:refusals-subsumed-by-verification", w, msg="gridContentsToAscii verifies its drawing against the data (R18.4); blank-row / placeholder handling cannot make it hand out a wrong map")
+        return _r1_reader_part(idx, r, base)
     lp = next((n for n in w.node.body if isinstance(n, ast.For) and norm(n.iter) == "self.asciiLines"), None)
     if lp is None:
         raise AnalysisError("gridContentsToAscii: clean-up loop not found")
@@ -88,10 +106,7 @@ def r1_lattice_maps(idx, r):
     tp = base.methods["_removeTrailingPlaceholders"]
     txt = norm(tp.node)
     r.require("for col in reversed(line)" in txt and "col == PLACEHOLDER and noDataYet" in txt and "newLine.reverse()" in txt, "writer:only-trailing-placeholders-trimmed", tp, msg="only trailing placeholders are trimmed from a row")
-    rd = base.methods["readAscii"]
-    seq = [dotted(c.func) for c in iter_calls(rd.node) if (dotted(c.func) or "").startswith("self._")]
-    r.require(seq == ["self._updateDimensionsFromAsciiLines", "self._asciiLinesToIndices", "self._makeOffsets", "self._updateSlotSizeFromData"], "reader:sequence", rd, msg=f"dimensions are derived before indices: {seq}")
-
+    return _r1_reader_part(idx, r, base)
 
 def r2_per_block_lists(idx, r):
     ab = idx.cls(BP + "assemblyBlueprint.AssemblyBlueprint")
@@ -400,7 +415,7 @@ def run(idx, chk):
         "materials, dimensions, isotopics and determinism in general are NOT decided."
     )
     chk.undecided_clauses = ["faithfulness of the constructed model to the input text", "material modifications and isotopic overrides as values", "determinism in general"]
-    chk.run_rule("R18.1", "lattice maps: one index map and one line order for reading and writing; incomplete drawings refused", lambda r: r1_lattice_maps(idx, r), floor=20,
+    chk.run_rule("R18.1", "lattice maps: one index map and one line order for reading and writing; incomplete drawings refused", lambda r: r1_lattice_maps(idx, r), floor=16,
                  necessary="a map read from text, written and read again gives the same indexed contents; never drawn incompletely")
     chk.run_rule("R18.2", "every per-block list is length-checked, the check dominates construction, block k uses entry k", lambda r: r2_per_block_lists(idx, r), floor=8, necessary="lists of unequal length are refused; blocks have the specified order/heights/xs types")
     chk.run_rule("R18.3", "lattice centring per axis; blueprint containers copied into the model; component attributes forwarded", lambda r: r3_centring_and_copies(idx, r), floor=7,
